@@ -25,8 +25,23 @@ def crafted(rnd, count):
                 els += frames.elem(0, bytes(rnd.choice([1, 8, 32])))          # blanked SSID
             elif v < 0.75:
                 els += frames.elem(0, bytes(rnd.randrange(256) for _ in range(rnd.choice([33, 64, 255]))))
-            elif v < 0.85:
+            elif v < 0.82:
                 els += frames.elem(0, b"abc") + frames.elem(1, b"\x82\x84") + frames.elem(0, b"Z")   # duplicated
+            elif v < 0.92:
+                # zero octets inside a non-blank SSID: leading, embedded, trailing, all but one
+                L = rnd.choice([1, 2, 3, 4, 8, 31, 32])
+                b = bytearray(rnd.randrange(256) if rnd.random() < 0.5 else 0 for _ in range(L))
+                shape = rnd.randrange(4)
+                if shape == 0:
+                    b[0] = 0
+                    b[-1] = rnd.randrange(1, 256)
+                elif shape == 1:
+                    b[-1] = 0
+                    b[0] = rnd.randrange(1, 256)
+                elif shape == 2:
+                    b = bytearray(L)
+                    b[rnd.randrange(L)] = rnd.randrange(1, 256)
+                els += frames.elem(0, bytes(b))
             # channel elements
             c = rnd.random()
             if c < 0.5:
